@@ -29,7 +29,14 @@ pub fn builtin_min(a: f64, b: f64) -> f64 {
 #[allow(non_snake_case)]
 #[builtin]
 pub fn builtin_clamp(x: f64, minVal: f64, maxVal: f64) -> f64 {
-	x.clamp(minVal, maxVal)
+	// Same as std.jsonnet: `f64::clamp` panics when minVal > maxVal
+	if x < minVal {
+		minVal
+	} else if x > maxVal {
+		maxVal
+	} else {
+		x
+	}
 }
 
 #[builtin]
